@@ -190,6 +190,10 @@ func runC02(c *core.Ctx) {
 	c.Rule("R7", "the sender's batch capacity is at least 1 whenever the queue exists (otherwise the drain loop never dequeues and spins)", 1)
 	runBatchCapacity(c, e, "R7")
 
+	// ---- R11 what the sender dequeues it writes
+	c.Rule("R11", "a packet taken off the queue is recycled only after the batch's transport.Writev (shared with C10-R3)", 1)
+	importObligations(c, runC10, "R11", func(o *core.Obligation) bool { return o.Rule == "R3" })
+
 	// ---- R10 a refused chunk is reported
 	c.Rule("R10", "ReadFrom reports a refused chunk with the write's error (shared with C14-R3)", 1)
 	importObligations(c, runC14, "R10", func(o *core.Obligation) bool { return strings.Contains(o.Key, "ReadFrom/write-error") })
